@@ -210,7 +210,7 @@ func formatPositions(size int) [2][15][2]int {
 func versionPositions(size int) [2][18][2]int {
 	var p [2][18][2]int
 	for i := 0; i < 18; i++ {
-		long := i / 3          // 0..5
+		long := i / 3            // 0..5
 		short := size - 11 + i%3 // size-11 .. size-9
 		p[0][i] = [2]int{long, short}
 		p[1][i] = [2]int{short, long}
